@@ -909,7 +909,7 @@ def k7_loop(mir, rep, fn_pattern, label, max_docs=3):
                 p.pc.append(z3.Or(asint(proj(proj(r, "f1"), "isempty")) == 0, asint(proj(proj(r, "f1"), "isempty")) == 1))
             return r
         if re.search(r"Deserializer::<.*>::(new|from_read_ref|from_reader|from_str)$", name):
-            p.trace.append(("de_new", re.search(r"::(\w+)$", name).group(1)))
+            p.trace.append(("de_new", re.search(r"::(\w+)$", name).group(1), argv[0] if argv else None))
             return fresh("de")
         if re.search(r"::set_max_depth$", name):
             p.trace.append(("set_max_depth", _const_name(argv[1])))
@@ -985,8 +985,9 @@ def k7_loop(mir, rep, fn_pattern, label, max_docs=3):
             r = fresh("utf8")
             return [(disc(r) == 0, r), (disc(r) == 1, r)]
         if re.search(r"Document::content$", name):
-            p.trace.append(("content", argv[0]))
-            return fresh("content")
+            c = fresh("content")
+            p.trace.append(("content", argv[0], c))
+            return c
         return None
 
     ex = X.Exec(mir, h)
@@ -1028,6 +1029,25 @@ def k7_loop(mir, rep, fn_pattern, label, max_docs=3):
                         rep.bad("K7." + label, "every MessagePack deserializer gets set_max_depth(DEPTH_LIMIT) before use", {"kind": "loop", "next": str(nxt)})
                 if e[0] == "next_value_size" and "DEPTH_LIMIT" not in str(e[1]):
                     rep.bad("K7." + label, "the size calculator is called with DEPTH_LIMIT", {"kind": "loop"})
+        # the text handed to a parser is the whole validated input / the chunk of this document, untouched
+        utf8s = _consts_named(p, "utf8")
+        for i, e in enumerate(p.trace):
+            if e[0] == "de_new" and e[1] == "from_str" and e[2] is not None:
+                conts = [x for x in p.trace[:i] if x[0] == "content"]
+                if conts:
+                    if not ex.valid(p, e[2] == conts[-1][2])[0]:
+                        rep.bad("K7." + label, "the YAML parser is given exactly the chunk of the document just cut", {"kind": "loop"})
+                elif utf8s and utf8s[0] != "none#0":
+                    u = z3.Const(utf8s[0], X.V)
+                    if not ex.valid(p, e[2] == proj(u, "Ok.0"))[0]:
+                        rep.bad("K7." + label, "the parser is given the whole validated input text, unmodified (no trimming, no re-slicing)", {"kind": "loop"})
+        # JSON reader loop: a document is translated only after end() said that more input follows
+        if label == "json":
+            for i, e in enumerate(p.trace):
+                if e[0] == "transcode_from" and any(x[0] == "end" for x in p.trace):
+                    prev = [x for x in p.trace[:i] if x[0] in ("end", "transcode_from")]
+                    if not prev or prev[-1][0] != "end" or not ex.valid(p, disc(prev[-1][1]) == 1)[0]:
+                        rep.bad("K7." + label, "a JSON document is translated only after end() reported that more input follows (an empty stream translates nothing and succeeds)", {"kind": "loop"})
         # one transcode_from per document: between two of them the source must have been consulted
         last = None
         for e in p.trace:
@@ -1389,7 +1409,7 @@ def k10_toml_output(mir, rep):
         if name == "drop":
             return None
         if re.search(r"toml::Value as Deserialize<'_>>::deserialize::<|toml::Value::try_from::<", name):
-            p.trace.append(("build_value",))
+            p.trace.append(("build_value", "deserialize" if "Deserialize" in name else "try_from", argv[0] if argv else None))
             r = fresh("built")
             return [(disc(r) == 0, r), (disc(r) == 1, r)]
         if re.search(r"toml::to_string_pretty::<", name):
@@ -1431,6 +1451,10 @@ def k10_toml_output(mir, rep):
         if names.count("build_value") != 1:
             rep.bad("K10.toml_output", "the first document is deserialized into a TOML value exactly once", wit)
             return
+        bv = [e for e in p.trace if e[0] == "build_value"][0]
+        want_api = "deserialize" if label == "from" else "try_from"
+        if bv[1] != want_api or not ex.valid(p, bv[2] == DOC1[0])[0]:
+            rep.bad("K10.toml_output", "a deserializer is deserialized straight into toml::Value (so that the TOML value type itself refuses nulls, binary and oversized integers), a stored value goes through toml::Value::try_from", wit)
         built_ok = any(re.match(r"^disc\(built#\d+\) == 0$", str(c)) for c in p.pc)
         writes, renders = names.count("write_all"), names.count("render")
         if "other_write" in names or writes > 1:
@@ -1453,11 +1477,13 @@ def k10_toml_output(mir, rep):
         if is_ok:
             stats["written"] += 1
 
+    DOC1 = [None]
     for l1, f1 in entries.items():
         firsts = []
         p1 = p_init.clone()
         p1.trace = []
-        ex.run(f1, p1, [me0, fresh("doc1")], lambda p, how, value: firsts.append((p, value)) if how == "return" else None)
+        DOC1[0] = fresh("doc1")
+        ex.run(f1, p1, [me0, DOC1[0]], lambda p, how, value: firsts.append((p, value)) if how == "return" else None)
         for p, value in firsts:
             stats["first"] += 1
             check_first(p, value, l1)
@@ -1585,6 +1611,8 @@ def k12_output_framing(mir, rep):
             def h(ex, p, name, argv, dst, dst_type, cur_fn):
                 if name == "drop":
                     return None
+                if re.search(r"::to_writer::<", name):
+                    p.trace.append(("writer_use", argv[0]))
                 if re.search(r"(^|::)transcode::<|stream::transcode::<|::to_writer::<|Serialize>::serialize::<", name):
                     p.trace.append(("body",))
                     r = fresh("body")
@@ -1598,7 +1626,12 @@ def k12_output_framing(mir, rep):
                     p.ghost = dict(p.ghost)
                     p.ghost["fmt:" + str(a)] = s
                     return a
+                if re.search(r"Serializer::<.*>::new$|Serializer::new$|::to_writer::<", name):
+                    p.trace.append(("writer_use", argv[0]))
+                    if "to_writer" not in name:
+                        return fresh("ser")
                 if re.search(r"io::Write>::write_fmt$", name):
+                    p.trace.append(("writer_use", argv[0]))
                     s = p.ghost.get("fmt:" + str(argv[1]))
                     lits = decode_template(s) if s is not None and not s.endswith("\n") or (s and "\xc0" in s) else [s]
                     if s is not None and not any(x for x in (lits or []) if x):
@@ -1610,15 +1643,19 @@ def k12_output_framing(mir, rep):
                     p.trace.append(("raw_write", name.rsplit("::", 1)[-1]))
                     r = fresh("rw")
                     return [(disc(r) == 0, r), (disc(r) == 1, r)]
-                if re.search(r"Serializer::<.*>::new$|Serializer::new", name):
-                    return fresh("ser")
                 return None
             ex = X.Exec(mir, h)
+            me = fresh("out")
 
-            def fin(p, how, value, ex=ex, mod=mod, where=where, text=text, entry=entry):
+            def fin(p, how, value, ex=ex, mod=mod, where=where, text=text, entry=entry, me=me):
                 stats["paths"] += 1
                 if how != "return":
                     return
+                for e in p.trace:
+                    if e[0] == "writer_use" and not ex.valid(p, e[1] == proj(me, "f0"))[0]:
+                        rep.bad("K12.framing", "the serializer and the framing writes go straight to the Output's own writer (no intermediate buffer whose Drop could swallow a write error)",
+                                {"kind": "framing", "output": mod, "entry": entry})
+                        break
                 evs = [e for e in p.trace if e[0] in ("body", "write_fmt", "raw_write")]
                 names = [e[0] for e in evs]
                 wit = {"kind": "framing", "output": mod, "entry": entry, "events": [(e[0], e[1] if len(e) > 1 else None) for e in evs]}
@@ -1643,9 +1680,213 @@ def k12_output_framing(mir, rep):
                     first_fail = None
                     for i, e in enumerate(evs):
                         pass
-            ex.run(fn, X.Path(), [fresh("out"), fresh("doc")], fin)
+            ex.run(fn, X.Path(), [me, fresh("doc")], fin)
             rep.absorb(ex)
             if not stats["ok"]:
                 raise Inconclusive("vacuity: %s::Output::%s never succeeds" % (mod, entry))
             rep.witnesses.append("%s::Output::%s: %d paths" % (mod, entry, stats["paths"]))
     rep.samples.append({"query": "K12.framing", "claim": "JSON: body then newline; YAML: '---' line then body; MessagePack: body only; Ok iff every step succeeded; no bare write()"})
+
+
+# -------------------------------------------------------------------------------------------------
+# K13: the four <format>::input_matches trials - detection never fails for a reason other than an
+#      I/O error of the source itself; running out of input or a syntax error means "no"
+# -------------------------------------------------------------------------------------------------
+
+RMP_DECODE = {"InvalidMarkerRead": 0, "InvalidDataRead": 1}
+MARKER_COLLECTIONS = {22, 23, 24, 25, 26, 27}  # rmp::Marker::{FixArray, Array16, Array32, FixMap, Map16, Map32}
+
+
+def _path_labels(p, prefixes):
+    seen = {}
+    for c in p.pc:
+        for m in re.finditer(r"\b(%s)_(\w+?)#(\d+)" % "|".join(prefixes), str(c)):
+            seen[int(m.group(3))] = (m.group(1), m.group(2))
+    return [seen[k] for k in sorted(seen)]
+
+
+def k13_input_matches(mir, rep):
+    kind = pure_fn("io_error_kind", 1)
+    stats = {}
+
+    def mk_handler(ex_holder):
+        def h(ex, p, name, argv, dst, dst_type, cur_fn):
+            if name == "drop":
+                return None
+            if re.search(r"input::Ref::<.*>::prefix$", name):
+                p.trace.append(("prefix", argv[1]))
+                out = []
+                for lab in ("err", "ok"):
+                    r = fresh("prefix_" + lab)
+                    out.append((disc(r) == (1 if lab == "err" else 0), r))
+                return out
+            if re.search(r"(^|::)from_utf8$", name):
+                out = []
+                for lab in ("bad", "ok"):
+                    r = fresh("utf8_" + lab)
+                    out.append((disc(r) == (1 if lab == "bad" else 0), r))
+                return out
+            if re.search(r"(^|::)(match_input_str|match_input_buffer|match_input_reader::<.*>)$", name):
+                p.trace.append(("trial", name.split("::")[-1][:18]))
+                out = []
+                if "msgpack" in cur_fn.name:
+                    labs = ["ok", "markereof", "markerio", "dataeof", "dataio", "other"]
+                else:
+                    labs = ["ok", "io", "syntax"]
+                for lab in labs:
+                    r = fresh("trial_" + lab)
+                    e = proj(r, "Err.0")
+                    if lab == "ok":
+                        c = disc(r) == 0
+                    elif lab in ("markereof", "markerio", "dataeof", "dataio"):
+                        variant = "InvalidMarkerRead" if lab.startswith("marker") else "InvalidDataRead"
+                        ioe = proj(e, variant + ".0")
+                        eof = ex.aggregate(p, "UnexpectedEof")
+                        c = z3.And(disc(r) == 1, disc(e) == RMP_DECODE[variant],
+                                   (disc(kind(ioe)) == disc(eof)) if lab.endswith("eof") else (disc(kind(ioe)) != disc(eof)))
+                    elif lab == "other":
+                        c = z3.And(disc(r) == 1, disc(e) >= 2, disc(e) <= 8)
+                    elif lab == "io":
+                        c = z3.And(disc(r) == 1, asint(pure_fn("is_io", 1)(e)) == 1)
+                    else:
+                        c = z3.And(disc(r) == 1, asint(pure_fn("is_io", 1)(e)) == 0)
+                    out.append((c, r))
+                return out
+            if re.search(r"serde_json::Error::is_io$", name):
+                return pure_fn("is_io", 1)(argv[0])
+            if re.search(r"io::Error::kind$", name):
+                return kind(argv[0])
+            if re.search(r"ErrorKind as PartialEq>::eq$", name):
+                r = fresh("kindeq")
+                p.pc.append(asint(r) == z3.If(disc(argv[0]) == disc(argv[1]), 1, 0))
+                return r
+            if re.search(r"serde_json::Error as Into<std::io::Error>>::into$", name):
+                return pure_fn("json_into_io", 1)(argv[0])
+            if re.search(r"<impl \[u8\]>::first$", name):
+                r = fresh("first")
+                p.pc.append(z3.Or(disc(r) == 0, disc(r) == 1))
+                return r
+            if re.search(r"Option::<&u8>::copied$", name):
+                return argv[0]
+            if re.search(r"Option::<u8>::map::<Marker", name):
+                r = fresh("marker")
+                p.pc.append(disc(r) == disc(argv[0]))
+                p.pc.append(z3.And(disc(proj(r, "Some.0")) >= 0, disc(proj(r, "Some.0")) <= 36))
+                return r
+            if re.search(r"<impl \[u8\]>::len$", name):
+                r = fresh("len")
+                p.pc.append(asint(r) >= 0)
+                return r
+            if re.search(r"Encoding::detect$", name):
+                p.trace.append(("detect", argv[0]))
+                return fresh("encoding")
+            if re.search(r"Encoder::<.*>::new$|BufReader::<.*>::new$|Chunker::<.*>::new$", name):
+                return fresh("wrapped")
+            if re.search(r"as Iterator>::next$", name):
+                out = []
+                for lab in ("none", "doc", "invalid", "othererr"):
+                    r = fresh("chunk_" + lab)
+                    e = proj(proj(r, "Some.0"), "Err.0")
+                    inv = ex.aggregate(p, "InvalidData")
+                    if lab == "none":
+                        c = disc(r) == 0
+                    elif lab == "doc":
+                        c = z3.And(disc(r) == 1, disc(proj(r, "Some.0")) == 0)
+                    elif lab == "invalid":
+                        c = z3.And(disc(r) == 1, disc(proj(r, "Some.0")) == 1, disc(kind(e)) == disc(inv))
+                    else:
+                        c = z3.And(disc(r) == 1, disc(proj(r, "Some.0")) == 1, disc(kind(e)) != disc(inv))
+                    out.append((c, r))
+                return out
+            if re.search(r"Document::is_collection$", name):
+                r = pure_fn("is_collection", 1)(argv[0])
+                p.pc.append(z3.Or(asint(r) == 0, asint(r) == 1))
+                return r
+            if re.search(r"toml::Deserializer::<.*>::new$", name):
+                return fresh("tomlde")
+            if re.search(r"IgnoredAny as Deserialize<'_>>::deserialize::<toml", name):
+                p.trace.append(("trial", "toml"))
+                out = []
+                for lab in ("ok", "syntax"):
+                    r = fresh("trial_" + lab)
+                    out.append((disc(r) == (0 if lab == "ok" else 1), r))
+                return out
+            if re.search(r"Result::<.*>::is_ok$", name):
+                r = fresh("is_ok")
+                p.pc.append(asint(r) == z3.If(disc(argv[0]) == 0, 1, 0))
+                return r
+            return None
+        return h
+
+    for fmt in ("msgpack", "json", "yaml", "toml"):
+        fn = mir.find(r"^%s::input_matches$" % fmt)
+        st = {"paths": 0, "true": 0, "false": 0, "err": 0}
+        for is_slice in (True, False):
+            ex = X.Exec(mir, None)
+            ex.handler = mk_handler(ex)
+            ref = fresh("inputref")
+            p0 = X.Path()
+            p0.pc.append(disc(ref) == X.VARIANTS.get("Ref::Slice", 0) if is_slice else disc(ref) == X.VARIANTS.get("Ref::Reader", 1))
+
+            def fin(p, how, value, ex=ex, fmt=fmt, is_slice=is_slice, st=st):
+                st["paths"] += 1
+                if how != "return":
+                    return
+                labs = _path_labels(p, ["prefix", "utf8", "trial", "chunk"])
+                d = dict((a, b) for a, b in labs)
+                wit = {"kind": "trial", "format": fmt, "input": "slice" if is_slice else "reader", "path": ["%s_%s" % l for l in labs]}
+                is_err = ex.valid(p, disc(value) == 1)[0]
+                is_true = ex.valid(p, z3.And(disc(value) == 0, asint(proj(value, "Ok.0")) == 1))[0]
+                is_false = ex.valid(p, z3.And(disc(value) == 0, asint(proj(value, "Ok.0")) == 0))[0]
+                st["err" if is_err else "true" if is_true else "false"] += 1
+                # expected verdict
+                if d.get("prefix") == "err":
+                    want = "err"
+                elif fmt == "msgpack":
+                    t = d.get("trial")
+                    want = {None: "false", "ok": "true", "markereof": "false", "dataeof": "false", "markerio": "err", "dataio": "err", "other": "false"}[t]
+                elif fmt == "json":
+                    want = "false" if d.get("utf8") == "bad" else {"ok": "true", "io": "err", "syntax": "false", None: "false"}[d.get("trial")]
+                elif fmt == "yaml":
+                    want = {"none": "false", "doc": "doc", "invalid": "false", "othererr": "err", None: "?"}[d.get("chunk")]
+                else:
+                    if d.get("utf8") == "bad":
+                        want = "false"
+                    elif "trial" in d:
+                        want = "true" if d["trial"] == "ok" else "false"
+                    else:
+                        want = "false"  # reader prefix at or above the cut-off
+                got = "err" if is_err else "true" if is_true else "false" if is_false else "other"
+                if want == "doc":
+                    ok = (not is_err) and any(e[0] == "trial" or True for e in p.trace)
+                    ok = ok and ex.valid(p, disc(value) == 0)[0]
+                    if not ok:
+                        rep.bad("K13.trial", "a YAML first document decides by whether it is a collection", wit)
+                elif want != got:
+                    rep.bad("K13.trial", "%s trial: an I/O error of the source is the only reason to fail; running out of input, invalid UTF-8 or a syntax error mean 'not this format' (expected %s, got %s)" % (fmt, want, got), wit)
+                if is_err and d.get("prefix") == "err":
+                    pass
+                # msgpack: the trial only runs for a collection first byte
+                if fmt == "msgpack" and "trial" in d:
+                    mk = [c for c in p.pc if "marker#" in str(c)]
+                    names = _consts_named(p, "marker")
+                    mv = z3.Const(names[0], X.V)
+                    if not ex.valid(p, z3.And(disc(mv) == 1, z3.Or([disc(proj(mv, "Some.0")) == k for k in MARKER_COLLECTIONS])))[0]:
+                        rep.bad("K13.trial", "the MessagePack trial only runs when the first byte is a collection marker", wit)
+                if fmt == "toml" and not is_slice:
+                    pre = [e for e in p.trace if e[0] == "prefix"]
+                    if pre and not ex.valid(p, asint(pre[0][1]) == 2 * 1024 * 1024)[0]:
+                        rep.bad("K13.trial", "TOML detection from a reader buffers up to 2 MiB (2097152 bytes)", wit)
+                if fmt == "yaml":
+                    pre = [e for e in p.trace if e[0] == "prefix"]
+                    if pre and not ex.valid(p, asint(pre[0][1]) == 4)[0]:
+                        rep.bad("K13.trial", "YAML detection looks at a 4 byte prefix for the encoding", wit)
+            ex.run(fn, p0, [ref], fin)
+            rep.absorb(ex)
+        if not (st["true"] + (1 if fmt == "yaml" else 0) and st["false"] and (st["err"] or fmt == "toml")):
+            raise Inconclusive("vacuity: %s::input_matches exploration did not reach every verdict (%s)" % (fmt, st))
+        stats[fmt] = st
+        rep.witnesses.append("%s::input_matches: %d paths (%d yes, %d no, %d error)" % (fmt, st["paths"], st["true"], st["false"], st["err"]))
+    rep.samples.append({"query": "K13.trial", "claim": "per format: Err only for an I/O error of the source (prefix / reader); end of input, invalid UTF-8, syntax errors, an InvalidData chunker error => Ok(false); msgpack trial only for a collection first byte; TOML reader cut-off 2 MiB; YAML prefix 4 bytes",
+                        "bound": "all paths of the four functions, slice and reader reference"})
+    return stats
